@@ -1,10 +1,81 @@
-(** C06 (stage A): every public Builder method is described by a descriptor
-    translated from its body, or is one of the structural methods modelled by
-    hand; theorems over [bstep] histories are being added in Proofs/BuilderFacts.v. *)
-From RV Require Import Model.Base Model.Builder.
-From RV Require Import Gen.BuilderData.
+(** C06 - every module built with the Builder survives assemble-then-load.
+    Statements only; proofs are [exact] of lemmas of Proofs/BuildLoadFacts.v,
+    Proofs/BuildConformsFacts.v.  [descriptors] are the ~1150 instruction-
+    emitting Builder methods translated from dr/build/*.rs on this run;
+    [brun] runs any call history.  No bound on the history. *)
+From RV Require Import Model.Base Model.Bytes Model.Module Model.Inst Model.Decoder Model.Parser Model.Loader Model.Builder.
+From RV Require Import Spec.Layout Spec.Conforms Proofs.LayoutFacts Proofs.BuilderFacts Proofs.BuilderIds Proofs.CodecFacts.
+From RV Require Import Proofs.BuildLoadFacts Proofs.BuildConformsFacts.
+From RV Require Import Gen.BuilderData Inst.Linked Inst.Run Inst.C05_inst.
 
 Theorem C06_all_methods_described : unrecognised_methods = [].
 Proof. vm_compute. reflexivity. Qed.
 
+(** every method files its instruction in the container the logical layout
+    assigns to the method's opcode (kernel-computed over all descriptors) *)
+Theorem C06_every_method_files_where_the_loader_would :
+  forallb (desc_ok C05_inst.class_of) descriptors = true.
+Proof. exact descs_ok. Qed.
+
+(** structural half: for every complete history of appending calls (each begun
+    block ended by a terminator call before its function is ended, each begun
+    function ended) the built module is well-classified, carries the version set
+    last and a bound equal to the next id, and feeding its instruction sequence
+    to the loader gives back exactly the built module - same instructions, same
+    sections, functions and blocks *)
+Theorem C06_built_module_survives_load :
+  forall cs s' os,
+  brun k_function_control descriptors bnew cs = Some (s', os) ->
+  forallb simple_call cs = true -> ends_closed k_function_control descriptors bnew cs -> complete s' ->
+  exists h, finish s' = (Some h, bs_module s')
+    /\ h_bound h = bs_next s' /\ h_version h = last_version default_version cs
+    /\ wc_module rclass (bs_module s')
+    /\ real_load (all_insts (bs_module s'))
+       = LCont {| l_module := bs_module s'; l_header := None; l_function := None; l_block := None |}.
+Proof. exact built_module_survives_load. Qed.
+
+(** a history that ends a function while a block is still open is not complete
+    in the property's sense: the Builder accepts it, the loader rejects the result *)
+Theorem C06_open_block_history_is_rejected :
+  forallb simple_call open_end_history = true /\
+  exists s' os, brun k_function_control descriptors bnew open_end_history = Some (s', os)
+    /\ os = [BVal 1; BVal 2; BUnit] /\ bs_fn s' = None /\ bs_blk s' = None
+    /\ real_load (all_insts (bs_module s')) = LErr UnclosedBlock.
+Proof. exact end_function_with_open_block_rejected. Qed.
+
+(** byte-level half: the emitted instruction has the method's opcode, carries
+    the call's arguments in grammar order and conforms to the grammar; the
+    descriptor-vs-grammar match is computed for every method of this run *)
+Theorem C06_methods_match_grammar_except :
+  map d_name (filter (fun d => negb (desc_matches G d)) descriptors) = exceptions /\
+  forallb (desc_matches G) (filter (fun d => negb (mem_str (d_name d) exceptions)) descriptors) = true.
+Proof. exact (conj non_matching descs_match). Qed.
+
+Theorem C06_emitted_instruction_conforms :
+  forall t d e rt ops rid,
+  desc_matches G d = true -> args_ok G t d e ->
+  call_parts d e = Some (rt, ops) -> rid_settled d rid ->
+  conforms G t (mk_inst (d_opcode d) rt rid ops) = true.
+Proof. exact (built_conforms G). Qed.
+
+Theorem C06_successful_call_emits_conforming_instruction :
+  forall t name d s e s' o,
+  find_desc descriptors name = Some d -> mem_str (d_name d) exceptions = false ->
+  args_ok G t d e -> d_sink d <> SDedupType ->
+  run_descriptor d s e = Some (s', o) -> ~ failed o ->
+  exists i, built_inst d s e = Some i /\ received d e s s' i /\ conforms G t i = true.
+Proof. exact run_call_conforms. Qed.
+
+(** known finding F18, proved for all inputs: the instruction these two methods emit never conforms *)
+Theorem C06_F18_type_struct_continued_never_conforms :
+  forall t id ms, conforms G t (mk_inst 6090 None (Some id) (map OIdRef ms)) = false.
+Proof. exact type_struct_continued_never_conforms. Qed.
+
 Print Assumptions C06_all_methods_described.
+Print Assumptions C06_every_method_files_where_the_loader_would.
+Print Assumptions C06_built_module_survives_load.
+Print Assumptions C06_open_block_history_is_rejected.
+Print Assumptions C06_methods_match_grammar_except.
+Print Assumptions C06_emitted_instruction_conforms.
+Print Assumptions C06_successful_call_emits_conforming_instruction.
+Print Assumptions C06_F18_type_struct_continued_never_conforms.
